@@ -8,12 +8,11 @@ walker drops, when `cmd_migrate` migrates); that the old parser accepts exactly 
 and that the re-parsed text has a given token sequence is the differential's job (`hx migrate`).
 
 T1 `content_only_spaces`   the output is the kept texts in order, separated by newlines/spaces only.
-T2 `ascii_positions`       all-ASCII, no line feed inside a token: every kept token lands at its
-                           original (line, column); `separated_stay_separated`.
-T3 `merge_witness`         NOT true beyond ASCII: after a multi-byte comment two identifiers that
-                           were separated by a space abut (`if a` -> `ifa`); `positions_fixed` shows
-                           the repaired column tracking lands every token for every text.
-   `multiline_shift_witness`  a token following a multi-line comment on its last line is shifted right.
+T2 `positions`             every kept token of every in-order token list lands at its original
+                           (line, column) — multi-byte and multi-line texts included;
+                           `separated_stay_separated`.
+T3 `old_merge_witness`, `old_multiline_shift_witness`  the defect of the column tracking before its
+                           repair (bytes; `column = 1` after a multi-line text), kept as documentation.
 T4 `current_grammar_untouched`  as coded: a program the current parser accepts is not migrated.
 -/
 namespace VerylModel.Props.C23
@@ -48,13 +47,10 @@ def InOrder (xs : List MTok) : Prop :=
 instance (xs : List MTok) : Decidable (InOrder xs) := by unfold InOrder; infer_instance
 
 /-- T2. If the tokens (all of them, dropped ones included) are in source order with 1-based
-positions, and every kept text is ASCII and has no line feed except possibly as its last
-character, then every kept token stands in the output exactly at its original (line, column). -/
-theorem ascii_positions (raw : Text) (toks : List MTok)
-    (hord : InOrder toks)
-    (hpos : ∀ x ∈ toks, 1 ≤ x.line ∧ 1 ≤ x.col)
-    (hascii : ∀ x ∈ walk toks, ∀ c ∈ x.text, c < 128)
-    (hnl : ∀ x ∈ walk toks, countNl x.text = 0 ∨ lastSeg x.text = []) :
+positions, then every kept token stands in the output exactly at its original (line, column) —
+whatever the texts are (multi-byte characters, line feeds inside comments). -/
+theorem positions (raw : Text) (toks : List MTok)
+    (hord : InOrder toks) (hpos : ∀ x ∈ toks, 1 ≤ x.line ∧ 1 ≤ x.col) :
     ∀ x ∈ walk toks, Lands (migrate raw toks) x := by
   have hsub : ∀ x ∈ walk toks, x ∈ toks := fun x hx => (List.mem_filter.mp hx).1
   have hord' : InOrder (walk toks) := List.Pairwise.filter _ hord
@@ -62,7 +58,7 @@ theorem ascii_positions (raw : Text) (toks : List MTok)
     (by simp [Sync, initSt, advanceAll, advanceWAll])
     (fun x hx => posLE_init x (hpos x (hsub x hx)).1 (hpos x (hsub x hx)).2)
     (fun x hx => (hpos x (hsub x hx)).2)
-    (fun x hx => honest_coded x (hascii x hx) (hnl x hx))
+    (fun x _ => honest_coded x)
     hord'
   exact h.1
 
@@ -89,40 +85,30 @@ def mergeWitness : List MTok :=
     { text := [97], line := 1, col := 14, keep := true },
     { text := [123], line := 1, col := 16, keep := true } ]
 
-/-- T3. The witness is in source order with a space between all neighbours, yet the output is
-`/* 日本語 */ifa{`: `if` and `a` have merged into one identifier.  (Replayed on the real migrator by
-`hx migrate`: the migrated text does not parse, or silently reads `signed logic` as `signedlogic`.) -/
-theorem merge_witness :
+/-- T3 (before the repair). The witness is in source order with a space between all neighbours,
+yet the OLD column tracking produced `/* 日本語 */ifa{`: `if` and `a` merged into one identifier.
+The current code keeps them apart. -/
+theorem old_merge_witness :
     InOrder mergeWitness ∧
     -- `if` ends at column 13, `a` starts at column 14: they are separated in the source
     (advanceAll (1, 11) [105, 102]).2 < 14 ∧
-    migrate [10] mergeWitness = [47, 42, 32, 26085, 26412, 35486, 32, 42, 47, 105, 102, 97, 123] := by
-  refine ⟨by decide, by decide, by decide⟩
+    migrateOld [10] mergeWitness = [47, 42, 32, 26085, 26412, 35486, 32, 42, 47, 105, 102, 97, 123] ∧
+    migrate [10] mergeWitness =
+      [47, 42, 32, 26085, 26412, 35486, 32, 42, 47, 32, 105, 102, 32, 97, 32, 123] := by
+  refine ⟨by decide, by decide, by decide, by decide⟩
 
-/-- A token after a multi-line comment on the comment's last line does not land at its column
-either (the code sets `column = 1` after a text with a line feed): `/* a⏎ b */ x` gives
-`/* a⏎ b */      x` — harmless for the token sequence, but not position preserving. -/
-theorem multiline_shift_witness :
+/-- Before the repair a token after a multi-line comment on the comment's last line did not land
+at its column either (`column = 1` after a text with a line feed): `/* a⏎ b */ x` gave
+`/* a⏎ b */      x`; now it is reproduced as it stands. -/
+theorem old_multiline_shift_witness :
+    migrateOld [10]
+      [ { text := [47, 42, 32, 97, 10, 32, 98, 32, 42, 47], line := 1, col := 1, keep := true },
+        { text := [120], line := 2, col := 7, keep := true } ] =
+      [47, 42, 32, 97, 10, 32, 98, 32, 42, 47, 32, 32, 32, 32, 32, 32, 120] ∧
     migrate [10]
       [ { text := [47, 42, 32, 97, 10, 32, 98, 32, 42, 47], line := 1, col := 1, keep := true },
         { text := [120], line := 2, col := 7, keep := true } ] =
-      [47, 42, 32, 97, 10, 32, 98, 32, 42, 47, 32, 32, 32, 32, 32, 32, 120] := by decide
-
-/-- T3, repaired: with character-based column tracking (and the true column after a multi-line
-text) every kept token of every in-order token list lands at its original (line, column) — no
-ASCII or single-line hypothesis. -/
-theorem positions_fixed (raw : Text) (toks : List MTok)
-    (hord : InOrder toks) (hpos : ∀ x ∈ toks, 1 ≤ x.line ∧ 1 ≤ x.col) :
-    ∀ x ∈ walk toks, Lands (migrateFixed raw toks) x := by
-  have hsub : ∀ x ∈ walk toks, x ∈ toks := fun x hx => (List.mem_filter.mp hx).1
-  have hord' : InOrder (walk toks) := List.Pairwise.filter _ hord
-  have h := foldl_lands colAfterFixed (detectNl raw) (detectNl_ok raw) (walk toks) initSt
-    (by simp [Sync, initSt, advanceAll, advanceWAll])
-    (fun x hx => posLE_init x (hpos x (hsub x hx)).1 (hpos x (hsub x hx)).2)
-    (fun x hx => (hpos x (hsub x hx)).2)
-    (fun x _ => honest_fixed x)
-    hord'
-  exact h.1
+      [47, 42, 32, 97, 10, 32, 98, 32, 42, 47, 32, 120] := by decide
 
 /-- The walker drops exactly the tokens flagged as the `for` index type annotation, keeping the
 order of the rest. -/
@@ -147,9 +133,9 @@ def unitTest : List MTok :=
     { text := [105, 110], line := 1, col := 24, keep := true },
     { text := [48], line := 1, col := 27, keep := true } ]
 
-example : InOrder unitTest ∧ (∀ x ∈ unitTest, 1 ≤ x.line ∧ 1 ≤ x.col) ∧
-    (∀ x ∈ walk unitTest, ∀ c ∈ x.text, c < 128) ∧
-    (∀ x ∈ walk unitTest, countNl x.text = 0 ∨ lastSeg x.text = []) := by decide
+example : InOrder unitTest ∧ (∀ x ∈ unitTest, 1 ≤ x.line ∧ 1 ≤ x.col) := by decide
+
+example : InOrder mergeWitness ∧ (∀ x ∈ mergeWitness, 1 ≤ x.line ∧ 1 ≤ x.col) := by decide
 
 /-- `            for i      in 0` -/
 example : migrate [10] unitTest =
